@@ -1,5 +1,7 @@
 """C13 - repeatability preconditions of the simplifier: no hidden state, fixed-point plumbing, cache containers."""
-from ..tree import *  # noqa
+from ..tree import *
+from .. import norm
+from ..norm import tail_value  # noqa
 from ..flow import Index
 from .. import callgraph
 from .c02 import binding_of_pat
@@ -84,8 +86,8 @@ def plumbing(ctx):
     d = ctx.fn("patronus", DO_TRANSFORM_EXPR)
     dix = Index(d["body"])
     ddefs = local_defs(d)
-    DP = {name: i for p in d["params"] for name, i in pat_bindings(p)}
-    tmap, mode, todo = DP.get("transformed"), DP.get("mode"), DP.get("todo")
+    pids = param_ids(d) + [None] * 5
+    mode, tmap, todo = pids[1], pids[2], pids[3]     # do_transform_expr(ctx, mode, transformed, todo, tran)
     # cache writes
     writes = [n for n in dix.nodes if n.get("k") == "assign" and peel(n["l"]).get("k") == "index" and is_local(peel(n["l"])["e"], tmap)]
     okw = len(writes) == 1
@@ -111,8 +113,7 @@ def plumbing(ctx):
     for n in gfp:
         for a in dix.ancestors(n):
             if a.get("k") == "if" and contains(a["then"], n):
-                c = peel(a["cond"])
-                if c.get("k") == "binary" and c["op"] == "==" and {show(peel(c["l"])), show(peel(c["r"]))} == {"mode", "ExprTransformMode::FixedPoint"} and is_local(n["args"][0], tmap):
+                if any(is_eq_test(c, mode, "ExprTransformMode::FixedPoint") for c in conjuncts(a["cond"])) and is_local(n["args"][0], tmap):
                     okc = True
     ctx.inst("R13.2", "do_transform_expr:children-through-fixed-point", okc, d["span"], "in FixedPoint mode the children of a node must be looked up with get_fixed_point(transformed, child)")
     # re-queue
@@ -129,22 +130,14 @@ def plumbing(ctx):
         # guard conjuncts
         ifs = [x for x in dix.ancestors(pu) if x.get("k") == "if" and contains(x["then"], pu)]
         conj = []
-
-        def fl(x):
-            x = peel(x)
-            if x.get("k") == "binary" and x["op"] == "&&":
-                fl(x["l"])
-                fl(x["r"])
-            else:
-                conj.append(x)
         for x in ifs:
-            fl(x["cond"])
+            conj += conjuncts(x["cond"])
         shown = [show(c)[:60] for c in conj]
         n_mode = n_fix = n_none = 0
         extra = 0
         for c in conj:
             s_ = show(c)
-            if c.get("k") == "binary" and c["op"] == "==" and {show(peel(c["l"])), show(peel(c["r"]))} == {"mode", "ExprTransformMode::FixedPoint"}:
+            if is_eq_test(c, mode, "ExprTransformMode::FixedPoint"):
                 n_mode += 1
             elif c.get("k") == "mcall" and c["name"] == "is_none" and peel(c["recv"]).get("k") == "index" and is_local(peel(c["recv"])["e"], tmap) and is_local(peel(c["recv"])["i"], a["id"]):
                 n_none += 1
@@ -159,20 +152,36 @@ def plumbing(ctx):
     g = ctx.fn("patronus", GET_FIXED_POINT)
     gix = Index(g["body"])
     gdefs = local_defs(g)
-    GP = {name: i for p in g["params"] for name, i in pat_bindings(p)}
-    ws = [n for n in gix.nodes if n.get("k") == "assign" and peel(n["l"]).get("k") == "index" and is_local(peel(n["l"])["e"], GP.get("m"))]
+    gm = (param_ids(g) + [None])[0]        # get_fixed_point(m, key)
+    ws = [n for n in gix.nodes if n.get("k") == "assign" and peel(n["l"]).get("k") == "index" and is_local(peel(n["l"])["e"], gm)]
     okg = len(ws) >= 1
+    assigns = [n for n in gix.nodes if n.get("k") in ("assign", "assignop") and peel(n["l"]).get("k") == "local"]
     for w in ws:
         r = peel(w["r"])
         v = peel(r["args"][0]) if r.get("k") == "ctor" and r.get("args") else {}
         init = simple_let_init(gdefs, v["id"]) if v.get("k") == "local" else None
-        chase = [l for l in gix.nodes if l.get("k") == "while" and gix.precedes(l, w) and not contains(l, w)]
+        chase = [l for l in gix.nodes if l.get("k") in ("while", "loop") and gix.precedes(l, w) and not contains(l, w)]
         noop = False
         if init is not None:
             i2 = strip_try(init)
             # re-storing the value that is already there (m[x] = Some(m[x]?)) is a no-op
-            noop = i2.get("k") == "index" and is_local(i2["e"], GP.get("m")) and show(peel(i2["i"])) == show(peel(peel(w["l"])["i"]))
-        okg = okg and (noop or (init is not None and peel(init).get("k") == "local" and len(chase) >= 1 and any(gix.precedes(l, gdefs[v["id"]][1]) for l in chase)))
+            noop = i2.get("k") == "index" and is_local(i2["e"], gm) and local_id(i2["i"]) is not None and local_id(i2["i"]) == local_id(peel(w["l"])["i"])
+        endpoint = False
+        if v.get("k") == "local" and chase:
+            # the stored local is the chase variable (or an immutable copy taken after the chase loop) and is not assigned between the chase loop and its use
+            if init is not None and peel(init).get("k") == "local" and gdefs.get(v["id"], ("",))[0] == "let" and not gdefs[v["id"]][2].get("mut"):
+                root, use, wloop = peel(init)["id"], gdefs[v["id"]][1], None
+            else:
+                root, use, wloop = v["id"], w, gix.enclosing(w, ("while", "loop", "for"))
+            for l in chase:
+                if not any(contains(l, a) and peel(a["l"])["id"] == root for a in assigns):
+                    continue
+                if not gix.precedes(l, use):
+                    continue
+                later = [a for a in assigns if peel(a["l"])["id"] == root and gix.precedes(l, a) and not contains(l, a) and (gix.precedes(a, use) or (wloop is not None and contains(wloop, a)))]
+                if not later:
+                    endpoint = True
+        okg = okg and (noop or endpoint)
     ctx.inst("R13.2", "get_fixed_point:compression-writes-end-point", okg, g["span"], "path compression may only store the end point of the chain (the value reached by the chase loop): %s" % [show(w) for w in ws], sample=[show(w) for w in ws])
     rets = [n["e"] for n in gix.nodes if n.get("k") == "return" and "e" in n] + [stmts_of(g["body"])[-1]]
     ctx.inst("R13.2", "get_fixed_point:returns", all(peel(r).get("k") == "ctor" for r in rets), g["span"], "get_fixed_point must return Some(end point)", nontrivial=False)
@@ -204,22 +213,19 @@ def containers(ctx):
         if len(idx) != 1 or len(idm) != 1:
             ctx.violation("R13.3", "%s:impls" % ty, None, "expected one Index and one IndexMut impl for %s, found %d/%d" % (ty, len(idx), len(idm)))
             continue
-        f = c.fns[idx[0]][0]
-        b, ms = chain(stmts_of(f["body"])[-1])
-        fp = field_path(b)
-        ok = fp is not None and fp[0] == "self" and fp[2] == ["inner"] and [m[0] for m in ms] == ["get", "unwrap_or"]
-        if ok:
-            d = peel(ms[1][1][0])
-            ok = d.get("k") == "field" and d["name"] == "default"
-            key = peel(ms[0][1][0])
-            P = {name: i for p in f["params"] for name, i in pat_bindings(p)}
-            if key.get("k") == "local" and key["id"] != P.get("e"):
-                defs = local_defs(f)
-                init = simple_let_init(defs, key["id"])
-                kb, kms = chain(init) if init is not None else ({}, [])
-                ok = ok and is_local(kb, P.get("e")) and [m[0] for m in kms] == ["into"]
-            else:
-                ok = ok and is_local(key, P.get("e"))
+        f = ctx.fn("patronus", idx[0])
+        pe = (param_ids(f) + [None, None])[1]      # index(&self, e)
+        tail = tail_value(stmts_of(f["body"])[-1]) if not [x for x in stmts_of(f["body"])[:-1] if x.get("k") != "let"] else {}
+        oe = norm.opt_elim(tail) if tail else None
+        ok = False
+        if oe is not None:
+            b, ms = chain(oe["scrut"])
+            fp = field_path(b)
+            d = peel(oe["none"]) if oe["none"] is not None else {}
+            some_ok = oe["some"] is None or (oe["bind"] is not None and is_local(tail_value(oe["some"]), oe["bind"]))
+            ok = fp is not None and fp[0] == "self" and fp[2] == ["inner"] and [m[0] for m in ms] == ["get"] and some_ok \
+                and d.get("k") == "field" and d["name"] == "default" and field_path(d) is not None and field_path(d)[0] == "self" \
+                and norm.converts_param(ms[0][1][0], pe)
         ctx.inst("R13.3", "%s:index" % ty, ok, f["span"], "%s::index must be self.inner.get(key of e).unwrap_or(&self.default): %s" % (ty, show(f["body"])[:160]), sample=show(f["body"])[:160])
         fm = c.fns[idm[0]][0]
         uses_default = [n for n in walk(fm["body"]) if n.get("k") == "field" and n["name"] == "default" and show(n["e"]) in ("self", "*self")]
